@@ -9,19 +9,23 @@ from vlib import vbytes, vlist, vopt, vbool, parse_val
 
 NEED_RG = False
 MANIFEST = dict(
-    text="Coq theorems, all file systems / configurations / verdict and filter functions: the skip decision of "
-         "Walk::skip_entry equals that of Worker::generate_work (false on the pinned text: D5, repaired); whenever the "
-         "parallel walker (as a LIFO worklist) finishes it has reported exactly the inductively defined descent tree of "
-         "the roots, each entry once; a followed directory already among its ancestors is never queued and is reported "
-         "as a Loop error. Two defects of the pinned serial walker are refuted by witness and repaired (D5: "
-         "filter_entry ignored for files under a size limit; new D15: a skipped directory on another file system drops "
-         "its remaining siblings). Tie to the code: extracted models of both walkers vs WalkBuilder::build() and "
-         "build_parallel() (1..8 threads) on real temp trees, plus an independent find-style listing.",
-    note="PARTIAL: serial output = reachable set, serial each-once, the matcher-stack/ancestor invariant and the "
-         "termination bound (depth <= number of directory inodes) are NOT proved; they are tested by the model/code/"
-         "oracle correspondence only. trusted: Coq kernel, extraction, OCaml driver, Rust harness, Python oracle; "
-         "walkdir 2.5.0 is modelled (IntoIter::next/handle_entry/push/pop/skip_current_dir) and tested, not verified; "
-         "the parallel walker is a sequential worklist here (schedule independence is C07).",
+    text="Coq theorems over all file systems whose directories form a forest (symlinks anywhere, cycles included), all "
+         "configurations (max_depth, max_filesize, follow_links, same_file_system, filter_entry), all ignore-verdict and "
+         "filter functions, all root lists: serial_eq_parallel — the model of the serial walker (walkdir's directory "
+         "stack, WalkEventIter's depth counter and buffer, Walk::next with matcher stack, skip_current_dir, "
+         "is_descended) and the model of the parallel walker (LIFO worklist of run_one/generate_work) both terminate "
+         "and deliver the same multiset of (kind, path, depth); each equals the inductively defined descent tree of "
+         "the roots, every entry once (serial_set_eq_spec, parallel_terminates_and_reports_descent); every descent is "
+         "finite because a followed directory is never among its ancestors (loop_detected_and_terminates); the two "
+         "skip decisions are the same function (false on the pinned text: D5). D5 and the new D15 (a skipped "
+         "directory on another file system dropped its siblings) are refuted by witness on the pinned text and "
+         "repaired. Tie to the code: extracted models of both walkers vs WalkBuilder::build() and build_parallel() "
+         "(1..8 threads) on real temp trees, plus an independent find-style listing.",
+    note="trusted: Coq kernel, extraction, OCaml driver, Rust harness, Python oracle; walkdir 2.5.0 is modelled "
+         "(IntoIter::next/handle_entry/push/pop/skip_current_dir) and tested, not verified; the parallel walker is a "
+         "sequential worklist here (schedule independence is C07); entries are compared on (kind, path, depth): a root "
+         "that is a symlink to a directory carries the link's file type in the serial walker and the target's in the "
+         "parallel one; read_dir/stat failures other than dangling links are not modelled.",
     technique="Coq proof over executable models + extracted-model/implementation correspondence + find-style oracle",
     design="§7 C06")
 
@@ -209,6 +213,9 @@ def scan_fs(base, roots, foreign):
                 rules.append(vlist([str(i), vlist(rs)]))
         else:
             lines.append(vlist(["2", vopt(None if nd[1] is None else str(nd[1])), str(nd[2]), str(nd[3])]))
+    # the hypotheses of the theorems (directories form a forest, links resolved): always true of a real tree;
+    # here: is the identity ranking on our inode numbers a witness?
+    scan_fs.ranked_by_id = all(j > i for i, nd in enumerate(nodes) if nd[0] == "d" for _, j in nd[1] if nodes[j][0] == "d")
     return lines, ids, rules
 
 
@@ -340,6 +347,8 @@ def check_cases(ctx, cases, base0, foreign0, stats):
         if not ok:
             continue
         ora = oracle(base, c)
+        if getattr(scan_fs, "ranked_by_id", False):
+            stats["fs-ranked-by-inode-number"] = stats.get("fs-ranked-by-inode-number", 0) + 1
         fuel = 40 * (len(ora[0]) + len(lines)) + 200
         mlines.append(vlist([vlist(lines), vlist(rvals), cfg_val(c, rules), str(fuel)]))
         hlines.append(vlist([vbytes(base), vlist([vbytes(r) for r in roots]), cfg_val(c, []), str(c["threads"])]))
